@@ -10,6 +10,7 @@ import (
 	"sort"
 	"strings"
 
+	"github.com/protolambda/zrnt/eth2/beacon/common"
 	"github.com/protolambda/zrnt/eth2/gossipval"
 	. "verifharness/hx"
 )
@@ -24,6 +25,10 @@ type Gen struct {
 	blockTag string
 	// same for contribution cases (head block in an earlier sync-committee period than the contribution)
 	contribTag string
+	// honest attestations/aggregates only for the last attWindow slots before the clock's slot (0 = the whole propagation window)
+	attWindow common.Slot
+	// what was validated before on the same backend, as far as the generator arranged it on purpose (stateful sequences)
+	seqNote []string
 }
 
 var hexLit = regexp.MustCompile(`0x[0-9a-f]{17,}`)
@@ -120,8 +125,26 @@ func verdictName(r gossipval.GossipValidatorResult) string {
 // the generator intends ("" = no expectation), only reported in the JSON and the histogram.
 func (g *Gen) Emit(topic, what string, v *View, f *Facts, msgCoq string, msgJSON interface{}, run func() gossipval.GossipValidatorResult) string {
 	v.Marks = nil
+	// a validator must not change the chain view: everything readable of the contexts of the entries involved is compared
+	// before and after the call (the contexts are shared by all messages of the run, as in a node)
+	var before []*epcSnapshot
+	for _, k := range f.order {
+		before = append(before, snapshotEpc(f.entries[k].e.epc))
+	}
 	var res gossipval.GossipValidatorResult
 	panicked, pv := Catch(func() { res = run() })
+	mutated := ""
+	for i, k := range f.order {
+		if d := before[i].diff(snapshotEpc(f.entries[k].e.epc)); d != "" {
+			mutated = fmt.Sprintf("entry %s: %s", k[len(k)-12:], d)
+			break
+		}
+	}
+	if mutated != "" && !panicked {
+		// harness assertion: reported like a panic of the call (no verdict of the specification allows it)
+		panicked, pv = true, fmt.Sprintf("validator returned %s but changed the chain view: %s", verdictName(res), mutated)
+		g.E.Extra["x_chain_view_mutations"] = extraInt(g.E.Extra["x_chain_view_mutations"]) + 1
+	}
 	verdict := verdictName(res)
 	errText := ""
 	if panicked {
@@ -146,6 +169,7 @@ func (g *Gen) Emit(topic, what string, v *View, f *Facts, msgCoq string, msgJSON
 		JSON: map[string]interface{}{
 			"world": v.W.Name, "topic": topic, "what": what, "message": msgJSON, "go_verdict": verdict, "go_error": errText, "go_marks": strings.Join(marks, "; "),
 			"clock_ms": v.NowMs, "slot_after_minus": uint64(v.SlotAfter(-500_000_000)), "slot_after_plus": uint64(v.SlotAfter(500_000_000)),
+			"chain_view_changed_by_validator": mutated, "validated_before_on_this_backend": strings.Join(g.seqNote, " ; "),
 			"head": nodeName(v.HeadNode), "finalized": fmt.Sprintf("(%d, %x)", uint64(v.Fin.Epoch), v.Fin.Root[:4]), "seen": strings.Join(seen, "; "),
 		}})
 	return verdict
